@@ -99,6 +99,9 @@ def run(gaf_path, gfa=None, output=None, index=None, nodes=[], regions=[], forma
         ind = None
         with open(index, "rb") as tmp:
             ind = pickle.load(tmp)
+        # besides the node entries the index stores the list of reference contigs under the plain
+        # string key "ref_contig". It is not a node and must not take part in the look-ups below
+        ind.pop("ref_contig", None)
 
         ind_key = sorted(list(ind.keys()), key=lambda x: (x[1], x[2]))
         ind_dict = {}
